@@ -4,5 +4,21 @@ set -e
 cd "$(dirname "$0")"
 export GOFLAGS=-mod=mod GOPROXY=off GOSUMDB=off GOTOOLCHAIN=local
 mkdir -p work evidence
-./coq/build.sh
+# full .vo build of everything except the modules that props.d marks thorough-only
+SKIP=$(python3 - <<'PY'
+import glob, json
+skip = []
+for f in glob.glob("props.d/C*.json"):
+    skip += json.load(open(f)).get("thorough_props_mods", [])
+    skip += json.load(open(f)).get("thorough_only_mods", [])
+print(" ".join(skip))
+PY
+)
+TARGETS=""
+for f in coq/theories/*.v; do
+  m=$(basename "$f" .v); keep=1
+  for s in $SKIP; do [ "$m" = "$s" ] && keep=0; done
+  [ $keep = 1 ] && TARGETS="$TARGETS theories/$m.vo"
+done
+./coq/build.sh $TARGETS
 cd harness && go build -tags verif ./... && echo "setup ok"
